@@ -29,12 +29,18 @@ for mp in sorted(glob.glob(os.path.join(VERIF, 'seeded', '*', 'meta.json'))):
     m = json.load(open(mp))
     summ = m.get('summary') or m.get('breaks', '')[:200]
     summ = re.sub(r'\s+', ' ', summ).replace('|', '/')
-    out.append('| %s | %s | %s | %s |' % (m['id'], summ, ' '.join(m.get('detected_by', [])), ' '.join(m.get('missed_by', []))))
+    det = ' '.join(m.get('detected_by', [])) or '**not detected**'
+    out.append('| %s | %s | %s | %s |' % (m['id'], summ, det, ' '.join(m.get('missed_by', []))))
 metas = [json.load(open(mp)) for mp in sorted(glob.glob(os.path.join(VERIF, 'seeded', '*', 'meta.json')))]
 missed = [m for m in metas if m.get('first_missed_by_own_check')]
-out.append("\n%d of the %d seeds were first **missed** by the check of their own property; each led to a stronger check (all %d are\ncaught now by the check of their own property, and the unchanged tree still passes, also for VERIF_SEED 2, 3 and 4):" % (len(missed), len(metas), len(metas)))
+out.append("\n%d of the %d seeds were first **missed** by the check of their own property; each led to a stronger check (%d of %d are\ncaught now by the check of their own property, and the unchanged tree still passes, also for VERIF_SEED 2, 3 and 4):" % (len(missed), len(metas), len([m for m in metas if m['property'] in m.get('detected_by', [])]), len(metas)))
 for m in missed:
     out.append("* `%s` - %s" % (m['id'], m.get('strengthening', '')))
+nd = [m for m in metas if m.get('not_detected_reason')]
+if nd:
+    out.append("\nNot detected (kept as documented misses):")
+    for m in nd:
+        out.append("* `%s` - %s" % (m['id'], m['not_detected_reason']))
 out.append("\nEntries under \"tried, not caught\" are other properties' checks run against the same change out of curiosity.\n")
 s = open(os.path.join(VERIF, 'DESIGN.md')).read()
 if '\n## 11. Sensitivity' in s:
